@@ -196,8 +196,8 @@ def x9(ctx, tab, sites, scc=()):
                     continue
                 # a local that holds the value (e.g. `text`, `defines` from a previous step) — accept locals of
                 # the same type role only for `path` (the resolved include path) and `text`
-                if pn == 'path' and what in ('path', 'new_path'):
-                    continue
+                if pn == 'path' and what not in names:
+                    continue   # a local holding a path (the resolved include file): X12 decides that it is the searched one
                 if pn in ('text', 'defines'):
                     continue
                 if pn == 's' and what not in names:
@@ -399,6 +399,22 @@ def x8(ctx, tab, sites, pp):
     return r
 
 
+def _include_path_var(pp, arm):
+    """the local of the `include handler that holds the file to include: the one initialised from the match over the forms of the
+    directive (directly or through a private helper that contains that match)"""
+    def has_forms(e):
+        return any(n.get('k') == 'match' and any(a['pat'].get('k') == 'ts' and a['pat']['p'].startswith('IncludeCompilerDirective::') for a in n['arms'])
+                   for n in sx.walk(e))
+    for st in arm.body.get('stmts', []):
+        if st['k'] == 'let' and 'init' in st and st['pat'].get('k') == 'ident':
+            if has_forms(st['init']):
+                return st['pat']['n']
+            for n in sx.walk(st['init']):
+                if sx.is_call(n) and n['f']['p'] in pp.fns and has_forms(pp.fns[n['f']['p']]['body']):
+                    return st['pat']['n']
+    return None
+
+
 def _tuple_components(ty):
     """components of the first (outermost) tuple type in a type string without blanks"""
     a = ty.find('(')
@@ -453,6 +469,12 @@ def x10_x12_p2(ctx, tab, sites, pp):
                     r10.fail('%s:%s:text-not-merged' % (PP, callee), pp.where(st.get('l')),
                              'the text returned by %s (`%s`) is not merged into the output' % (callee, txt_v))
                 wraps = [n for n in sx.walk(init) if n.get('k') == 'mcall' and n['m'] == 'map_err']
+                # the wrapper may be a closure or a private function handed to map_err by name: read the function as the closure
+                if len(wraps) == 1 and wraps[0]['args'] and sx.is_path(wraps[0]['args'][0]) and wraps[0]['args'][0]['p'] in pp.fns:
+                    wf = pp.fns[wraps[0]['args'][0]['p']]
+                    wps = [q for q in wf['sig']['params'] if q.get('k') == 'typed']
+                    if len(wps) == 1:
+                        wraps = [dict(wraps[0], args=[{'k': 'closure', 'params': [wps[0]['pat']], 'body': wf['body'], 'l': wf.get('l')}])]
                 okw = len(wraps) == 1 and 'Error::Include' in sq(wraps[0]['args'][0]) and init.get('k') == 'try'
                 r10.inst('wrap:%s' % callee)
                 if not okw:
@@ -546,7 +568,8 @@ def x10_x12_p2(ctx, tab, sites, pp):
     if inc:
         arm = inc[0]
         # the search: a loop over the include paths, in the arm itself or in a private helper the arm hands `include_paths` to
-        host_body, host_name, pathv, ipv = arm.body, loopf, 'path', 'include_paths'
+        host_body, host_name, pathv, ipv = arm.body, loopf, _include_path_var(pp, arm) or 'path', 'include_paths'
+        arm_pathv = pathv
         fors = [n for n in sx.walk(arm.body) if n.get('k') == 'for' and 'include_path' in sq(n['e'])]
         if not fors:
             for n in sx.walk(arm.body):
@@ -560,7 +583,7 @@ def x10_x12_p2(ctx, tab, sites, pp):
                     if hf:
                         fors, host_body, host_name = hf, h['body'], h['name']
                         ipv = amap['include_paths']
-                        pathv = amap.get('path', amap.get('&path', 'path'))
+                        pathv = amap.get(arm_pathv, amap.get('&' + arm_pathv, 'path'))
                         break
         r12.inst('search_loop', {'host': host_name, 'loops': len(fors)})
         if len(fors) != 1:
@@ -647,7 +670,7 @@ def x10_x12_p2(ctx, tab, sites, pp):
         for cll in calls:
             a0 = sq(cll['args'][0])
             r12.inst('path-used', {'callee': cll['f']['p'], 'path_argument': a0})
-            if a0 not in ('path', '&path', 'path.as_path()'):
+            if a0 not in (arm_pathv, '&' + arm_pathv, arm_pathv + '.as_path()'):
                 r12.fail('%s:searched-path-not-used' % PP, pp.where(cll.get('l')), 'the file opened must be the path resulting from the search; found `%s`' % a0)
 
     # ---------- P2   (semantic, tri-state)
